@@ -244,9 +244,9 @@ class LoadFacts:
                         lo.add(fact[1])
                     if fact[0] == 'upper':
                         up.add(fact[1])
-            if len(lo) != 1 or len(up) != 1 or lo == up:
-                raise AnalysisError(f'chronicle._load: cannot identify one lower and one upper window parameter (lower={sorted(lo)}, upper={sorted(up)})')
-            c = self.__dict__['_wp'] = (lo.pop(), up.pop())
+            if len(lo) > 1 or len(up) > 1 or (lo and lo == up):
+                raise AnalysisError(f'chronicle._load: ambiguous window parameters (lower={sorted(lo)}, upper={sorted(up)})')
+            c = self.__dict__['_wp'] = (lo.pop() if lo else None, up.pop() if up else None)
         return c
 
 
@@ -1452,7 +1452,7 @@ def _rule4(ctx, rep, lf, ffl, fnode):
             sites.setdefault(norm(call), (call, []))[1].append(st)
         for k, (call, sts) in sorted(sites.items()):
             r.instance()
-            need = {('lower', lo_p, True): f'{lo_p} < completed', ('upper', up_p, True): f'completed < {up_p}'}
+            need = {('lower', lo_p, True): f'{lo_p or "<lower bound>"} < completed', ('upper', up_p, True): f'completed < {up_p or "<upper bound>"}'}
             missing = sorted({txt for fact, txt in need.items() for st in sts if fact not in st})
             nostatus = any(not any(f[0] == 'status' for f in st) for st in sts)
             r.check(
@@ -1482,7 +1482,7 @@ def _rule4(ctx, rep, lf, ffl, fnode):
             for which, lp, fp in (('lower', lo_p, LOWER), ('upper', up_p, UPPER)):
                 r.instance()
                 key = f'{ff.qname}:{k}:{which}'
-                a = (b or {}).get(lp)
+                a = (b or {}).get(lp) if lp else None
                 if a is None:
                     r.fail(key, where(ff, call), f'the {which} window argument of {k} cannot be identified')
                     continue
@@ -1792,13 +1792,13 @@ def _rule6(ctx, rep, lf, ffl, fnode, rdir, cursor):
                 absent = {c for k, c in facts if k == 'nodir'}
                 desc = f'absent={sorted("/".join(_strip(c)[2:]) for c in absent)} loaded={bool(loaded)}'
                 if len(steps) != 1:
-                    k = f'{ff.qname}:walk:{"; ".join(s[1] for s in steps) or "no-step"}'
-                    verdicts.setdefault(k, [steps[0][2] if steps else loop.lineno, []])[1].append(
+                    k = ("; ".join(s[1] for s in steps) or "no-step", steps[0][2] if steps else loop.lineno)
+                    verdicts.setdefault(k, [k[1], []])[1].append(
                         f'an iteration path ({desc}) moves the cursor {len(steps)} times: the walk never ends or jumps over a day'
                     )
                     continue
                 kind, text, line = steps[0]
-                k = f'{ff.qname}:walk:{text}'
+                k = (text, line)
                 v = verdicts.setdefault(k, [line, []])
                 if kind is None:
                     v[1].append(f'cursor step `{text}` is not understood (accepted: one day back; last day of the previous month / year)')
@@ -1813,7 +1813,10 @@ def _rule6(ctx, rep, lf, ffl, fnode, rdir, cursor):
             if not ends:
                 r.instance()
                 r.fail(f'{ff.qname}:walk', where(ff, loop), 'no path reaches the end of an iteration of the day loop')
-            for k, (line, msgs) in sorted(verdicts.items()):
+            seen_text = {}
+            for (text, _l), (line, msgs) in sorted(verdicts.items(), key=lambda kv: (kv[0][0], kv[0][1])):
+                n = seen_text[text] = seen_text.get(text, 0) + 1
+                k = f'{ff.qname}:walk:{text}' + (f'#{n}' if n > 1 else '')
                 r.instance()
                 r.check(not msgs, k, f'{ff.module.relpath}:{line}', 'step consistent with what the iteration established about the directories', '; '.join(sorted(set(msgs))))
             # the walk starts on the upper bound's day
